@@ -1,7 +1,11 @@
 #!/usr/bin/env python3
-"""tools/seedtest.py <seeded-dir> [--tier quick|thorough] [--props C11,C12]
-Apply /verif/seeded/<id>/patch.diff to /repo, run the checks of the property it breaks (and any
-extra ones given), report which raise VIOLATION, and restore /repo.  Never commits to /repo."""
+"""tools/seedtest.py <seeded-dir> [--tier quick|thorough] [--props C11,C12] [--in-repo]
+Apply /verif/seeded/<id>/patch.diff, run the checks of the property it breaks (and any extra ones
+given) and report which raise VIOLATION.  Default: in a scratch worktree of /repo HEAD
+(/tmp/wt-seed-<pid>, VERIF_REPO points the checks at it; evidence and replays of the trial go to a
+temporary directory), so that nothing else that reads /repo at the same time sees the change.
+--in-repo: apply to /repo itself (git apply ... checkout), as a user of the checks would.
+Never commits to /repo."""
 import json, os, subprocess, sys, time
 
 V = os.path.dirname(os.path.dirname(os.path.abspath(__file__)))
@@ -28,29 +32,47 @@ def main():
             a = a[1:]
     meta = json.load(open(os.path.join(d, "meta.json")))
     props = props or [meta["property"]]
+    in_repo = "--in-repo" in sys.argv
+    env = dict(os.environ)
+    global REPO
+    wt = None
+    if not in_repo:
+        wt = f"/tmp/wt-seed-{os.getpid()}"
+        r = sh(["git", "-C", "/repo", "worktree", "add", "--detach", wt, "HEAD"])
+        if r.returncode != 0:
+            print("cannot create scratch worktree:", r.stdout); return 2
+        REPO = wt
+        env["VERIF_REPO"] = wt
+        env["VERIF_EVIDENCE_DIR"] = f"/tmp/seed-evidence-{os.getpid()}"
     st = sh(["git", "-C", REPO, "status", "--porcelain", "--untracked-files=no"]).stdout.strip()
     if st:
-        print("refusing: /repo has uncommitted changes:\n" + st)
+        print("refusing: the tree has uncommitted changes:\n" + st)
         return 2
     r = sh(["git", "-C", REPO, "apply", os.path.join(d, "patch.diff")])
     if r.returncode != 0:
         print("patch does not apply:", r.stdout)
+        if wt: sh(["git", "-C", "/repo", "worktree", "remove", "--force", wt])
         return 2
     results = {}
     try:
         for p in props:
             t0 = time.time()
-            c = sh([sys.executable, os.path.join(V, "tools", "check.py"), "--property", p, "--tier", tier], cwd=V)
+            c = sh([sys.executable, os.path.join(V, "tools", "check.py"), "--property", p, "--tier", tier], cwd=V, env=env)
             viol = [l for l in c.stdout.split("\n") if l.startswith("VIOLATION")]
             results[p] = dict(exit=c.returncode, violation=viol[0] if viol else None, wall_s=round(time.time() - t0, 1),
                               tail=c.stdout.strip().split("\n")[-4:])
             print(p, "->", "DETECTED" if viol else "missed", viol[0] if viol else "", f"({results[p]['wall_s']}s)")
     finally:
-        sh(["git", "-C", REPO, "checkout", "--", "."])
-        sh(["git", "-C", REPO, "clean", "-fdq", "src", "include", "tests"])
+        if wt:
+            sh(["git", "-C", "/repo", "worktree", "remove", "--force", wt])
+            sh(["rm", "-rf", env["VERIF_EVIDENCE_DIR"]])
+            sh("rm -rf " + os.path.join(V, "build", "run-*-trial*"), shell=True)
+        else:
+            sh(["git", "-C", REPO, "checkout", "--", "."])
+            sh(["git", "-C", REPO, "clean", "-fdq", "src", "include", "tests"])
     meta.setdefault("checked", {})
     meta["checked"][tier] = {p: dict(detected=bool(v["violation"]), line=v["violation"], wall_s=v["wall_s"]) for p, v in results.items()}
-    meta["checked_at_repo"] = sh(["git", "-C", REPO, "rev-parse", "--short", "HEAD"]).stdout.strip()
+    meta["checked_at_repo"] = sh(["git", "-C", "/repo", "rev-parse", "--short", "HEAD"]).stdout.strip()
     json.dump(meta, open(os.path.join(d, "meta.json"), "w"), indent=1)
     return 0
 
